@@ -23,7 +23,7 @@ ASSUMPTIONS = ['rounding scaled by conditioning = C*(eps*m*max_j|w_kj| + D_k) pe
                'exact weights derived from the definition of the Lagrange basis in Fraction arithmetic']
 C_ROW = 256.0
 C_POLY = 64.0
-KINDS = ['uniform', 'random', 'clustered', 'permuted', 'onesided', 'geometric', 'integer', 'offset', 'pyint_big']
+KINDS = ['uniform', 'random', 'clustered', 'permuted', 'onesided', 'geometric', 'integer', 'offset', 'pyint_big', 'nearly_uniform']
 
 
 def setup(ctx, mon):
@@ -56,6 +56,16 @@ def make_nodes(rng, kind, m):
         x = (int(rng.integers(-5, 6)) * step + step * np.arange(m) * int(rng.integers(1, 4))).astype(float)
         if rng.random() < 0.4:
             x = rng.permutation(x)
+    elif kind == 'nearly_uniform':
+        # an equidistant stencil around its centre with one or all nodes moved by 1e-9..1e-5 of the spacing: the weights
+        # are those of the nodes as given, not of the ideal stencil they resemble
+        h = 10.0 ** rng.uniform(-3, 1)
+        x = rng.uniform(-2, 2) + h * (np.arange(m) - (m - 1) // 2)
+        move = h * 10.0 ** rng.uniform(-9, -5.1) * rng.choice([-1.0, 1.0], size=m)
+        if rng.random() < 0.6:
+            keep = int(rng.integers(0, m))
+            move[np.arange(m) != keep] = 0.0
+        x = x + move
     else:  # offset: well separated nodes far from the origin
         x = 1000.0 + np.sort(rng.uniform(-1, 1, m))
     x = np.asarray(x, dtype=float)
@@ -75,6 +85,8 @@ def cases(rng, tier, shard, nshards):
     while i < n:
         kind = KINDS[(i + shard) % len(KINDS)]
         m = int(rng.integers(2, 15))
+        if kind == 'nearly_uniform' and rng.random() < 0.8:
+            m = int(rng.choice([3, 5, 7, 9]))
         x = make_nodes(rng, kind, m)
         if x is None:
             continue
@@ -92,6 +104,13 @@ def cases(rng, tier, shard, nshards):
         else:
             x0 = float(x[int(rng.integers(0, m))])
         nder = int(rng.integers(0, m))
+        if kind == 'nearly_uniform':
+            centre = float(np.sort(x)[(m - 1) // 2])
+            u = rng.random()
+            x0 = centre if u < 0.5 else centre + float(np.ptp(x)) / (m - 1) * 10.0 ** rng.uniform(-10, -6) * float(rng.choice([-1, 1]))
+            place = 'near_centre'
+            if rng.random() < 0.8:
+                nder = min(int(rng.integers(1, 3)), m - 1)
         yield dict(kind=kind, x=[float(v) for v in x], x0=x0, n=nder, place=place,
                    as_list=bool(rng.random() < 0.3), pseed=int(rng.integers(0, 2 ** 31)))
         i += 1
